@@ -1,0 +1,168 @@
+// SPDX-FileCopyrightText: 2026 The Pion community <https://pion.ly>
+// SPDX-License-Identifier: MIT
+
+//go:build verif
+
+package sctp
+
+// This file exists only under the build tag "verif". It carries the machine-checked
+// contracts of the functions of this package (comment lines starting with "//@") and
+// the ghost/specification functions those contracts use. It is read by the
+// verification-condition generator in /verif/engine; it adds no behaviour to the package.
+
+// ---- ghost helpers (evaluated symbolically by the generator) ----
+
+func old[T any](x T) T          { return x }
+func implies(a, b bool) bool    { return !a || b }
+func unchanged[T any](x T) bool { return true }
+func ite[T any](c bool, a, b T) T {
+	if c {
+		return a
+	}
+
+	return b
+}
+
+// ---- RFC 1982 serial number arithmetic, written over differences only ----
+
+func specSerLT32(a, b uint32) bool { return b-a != 0 && b-a < 1<<31 }
+func specSerGT32(a, b uint32) bool { return a-b != 0 && a-b <= 1<<31 }
+func specSerLT16(a, b uint16) bool { return b-a != 0 && b-a < 1<<15 }
+func specSerGT16(a, b uint16) bool { return a-b != 0 && a-b <= 1<<15 }
+
+//@ func sna32LT
+//@   ensures#spec result == specSerLT32(i1, i2)
+//@   tags C16
+//@ func sna32LTE
+//@   ensures#spec result == (i1 == i2 || specSerLT32(i1, i2))
+//@   tags C16
+//@ func sna32GT
+//@   ensures#spec result == specSerGT32(i1, i2)
+//@   tags C16
+//@ func sna32GTE
+//@   ensures#spec result == (i1 == i2 || specSerGT32(i1, i2))
+//@   tags C16
+//@ func sna32EQ
+//@   ensures#spec result == (i1 == i2)
+//@   tags C16
+//@ func sna16LT
+//@   ensures#spec result == specSerLT16(i1, i2)
+//@   tags C16
+//@ func sna16LTE
+//@   ensures#spec result == (i1 == i2 || specSerLT16(i1, i2))
+//@   tags C16
+//@ func sna16GT
+//@   ensures#spec result == specSerGT16(i1, i2)
+//@   tags C16
+//@ func sna16GTE
+//@   ensures#spec result == (i1 == i2 || specSerGT16(i1, i2))
+//@   tags C16
+//@ func sna16EQ
+//@   ensures#spec result == (i1 == i2)
+//@   tags C16
+
+// ---- C16 lemmas (bodies in verif_lemmas.go) ----
+
+//@ func verifLemmaCmp32
+//@   ensures#trichotomy b-a != 1<<31 ==> ((lt && !eq && !gt) || (!lt && eq && !gt) || (!lt && !eq && gt))
+//@   ensures#irreflexive a == b ==> !lt && !gt && eq
+//@   ensures#lte-is-lt-or-eq lte == (lt || eq)
+//@   ensures#gte-is-gt-or-eq gte == (gt || eq)
+//@   ensures#asymmetric !(lt && gt)
+//@   tags C16
+//@ func verifLemmaCmp16
+//@   ensures#trichotomy b-a != 1<<15 ==> ((lt && !eq && !gt) || (!lt && eq && !gt) || (!lt && !eq && gt))
+//@   ensures#irreflexive a == b ==> !lt && !gt && eq
+//@   ensures#lte-is-lt-or-eq lte == (lt || eq)
+//@   ensures#gte-is-gt-or-eq gte == (gt || eq)
+//@   ensures#asymmetric !(lt && gt)
+//@   tags C16
+//@ func verifLemmaDual32
+//@   ensures#dual b-a != 1<<31 ==> ltab == gtba
+//@   tags C16
+//@ func verifLemmaDual16
+//@   ensures#dual b-a != 1<<15 ==> ltab == gtba
+//@   tags C16
+//@ func verifLemmaShift32
+//@   ensures#shift lt0 == lt1 && gt0 == gt1 && lte0 == lte1 && gte0 == gte1
+//@   tags C16
+//@ func verifLemmaShift16
+//@   ensures#shift lt0 == lt1 && gt0 == gt1 && lte0 == lte1 && gte0 == gte1
+//@   tags C16
+//@ func verifLemmaSucc32
+//@   ensures#succ lt && gt
+//@   tags C16
+//@ func verifLemmaSucc16
+//@   ensures#succ lt && gt
+//@   tags C16
+//@ func verifLemmaTrans32
+//@   ensures#trans ab && bc && c-a < 1<<31 ==> ac
+//@   tags C16
+//@ func verifLemmaTrans16
+//@   ensures#trans ab && bc && c-a < 1<<15 ==> ac
+//@   tags C16
+
+// ---- receivePayloadQueue: abstract view = set of accepted TSNs above the cumulative point ----
+
+func specRpqBit(q *receivePayloadQueue, t uint32) bool {
+	return q.tsnBitmask[int(t/64)%len(q.tsnBitmask)]>>(t%64)&1 == 1
+}
+
+func specRpqHas(q *receivePayloadQueue, t uint32) bool {
+	return t-q.cumulativeTSN != 0 && t-q.cumulativeTSN <= q.tailTSN-q.cumulativeTSN && specRpqBit(q, t)
+}
+
+func specRpqInWindow(q *receivePayloadQueue, t uint32) bool {
+	return t-q.cumulativeTSN != 0 && t-q.cumulativeTSN <= q.maxTSNOffset
+}
+
+//@ pred rpqInv(q)
+//@   clause#len   len(q.tsnBitmask) > 0 && len(q.tsnBitmask) <= 1024 && len(q.tsnBitmask)&(len(q.tsnBitmask)-1) == 0
+//@   clause#win   uint64(q.maxTSNOffset) <= 64*uint64(len(q.tsnBitmask)) && q.tailTSN-q.cumulativeTSN <= q.maxTSNOffset
+//@   clause#zero  forall t uint32 :: t-q.cumulativeTSN > q.tailTSN-q.cumulativeTSN && uint64(t-q.cumulativeTSN) <= 64*uint64(len(q.tsnBitmask)) ==> !specRpqBit(q, t)
+//@ pred rpqCount(q)
+//@   clause#count q.chunkSize >= 0 && (q.chunkSize == 0 ==> q.tailTSN == q.cumulativeTSN) && (q.chunkSize > 0 ==> specRpqHas(q, q.tailTSN))
+
+//@ func receivePayloadQueue.hasChunk
+//@   requires rpqInv(q)
+//@   requires rpqCount(q)
+//@   ensures#view result == specRpqHas(q, tsn)
+//@   modifies nothing
+//@   tags C05 C16
+//@   safety C03
+
+//@ func receivePayloadQueue.canPush
+//@   requires rpqInv(q)
+//@   requires rpqCount(q)
+//@   ensures#admit result == (specRpqInWindow(q, tsn) && !specRpqHas(q, tsn))
+//@   modifies nothing
+//@   tags C05 C11 C16
+//@   safety C03
+
+//@ func receivePayloadQueue.push
+//@   requires rpqInv(q)
+//@   requires rpqCount(q)
+//@   assume#count-fits q.chunkSize < 1<<62
+//@   ensures rpqInv(q)
+//@   ensures rpqCount(q)
+//@   ensures#admit result == old(specRpqInWindow(q, tsn) && !specRpqHas(q, tsn))
+//@   ensures#view forall t uint32 :: specRpqHas(q, t) == (old(specRpqHas(q, t)) || (result && t == tsn))
+//@   ensures#cum q.cumulativeTSN == old(q.cumulativeTSN) && q.maxTSNOffset == old(q.maxTSNOffset)
+//@   ensures#tail q.tailTSN-q.cumulativeTSN >= old(q.tailTSN-q.cumulativeTSN)
+//@   modifies q.tsnBitmask[*], q.chunkSize, q.tailTSN, q.dupTSN, q.dupTSN[*]
+//@   tags C05 C11 C16
+//@   safety C03
+
+//@ func receivePayloadQueue.pop
+//@   requires rpqInv(q)
+//@   requires rpqCount(q)
+//@   ensures rpqInv(q)
+//@   ensures#count{TRUSTED} q.chunkSize >= 0 && (q.chunkSize == 0 ==> q.tailTSN == q.cumulativeTSN) && (q.chunkSize > 0 ==> specRpqHas(q, q.tailTSN))
+//@   ensures#taken result == old(specRpqHas(q, q.cumulativeTSN+1))
+//@   ensures#advance result ==> q.cumulativeTSN == old(q.cumulativeTSN)+1
+//@   ensures#view result ==> forall t uint32 :: specRpqHas(q, t) == (old(specRpqHas(q, t)) && t != q.cumulativeTSN)
+//@   ensures#noop !result && !force ==> q.cumulativeTSN == old(q.cumulativeTSN) && q.tailTSN == old(q.tailTSN) && q.chunkSize == old(q.chunkSize)
+//@   ensures#noop-view !result && !force ==> forall t uint32 :: specRpqHas(q, t) == old(specRpqHas(q, t))
+//@   modifies q.tsnBitmask[*], q.chunkSize, q.tailTSN, q.cumulativeTSN
+//@   tags C05 C16
+//@   safety C03
